@@ -413,6 +413,359 @@ pub fn gen_number(rng: &mut Rng) -> String {
   }
 }
 
+/// A number text for TCK `xsd:decimal` inputs: as [gen_number], sometimes in scientific notation
+/// (zero coefficients with an exponent included).
+pub fn gen_number_exp(rng: &mut Rng) -> String {
+  let base = gen_number(rng);
+  if !rng.chance(1, 3) {
+    return base;
+  }
+  let e = *rng.pick(&["E", "e"]);
+  let k = match rng.index(4) {
+    0 => rng.index(4),
+    1 => rng.index(12),
+    _ => rng.index(30),
+  };
+  match rng.index(3) {
+    0 => format!("{}{}+{}", base, e, k),
+    1 => format!("{}{}-{}", base, e, k),
+    _ => format!("{}{}{}", base, e, k),
+  }
+}
+
+/// (negative, digits, exponent): the value is digits x 10^exponent.
+fn parse_decimal(text: &str) -> Option<(bool, String, i64)> {
+  let t = text.trim();
+  let (neg, rest) = match t.strip_prefix('-') {
+    Some(r) => (true, r),
+    None => (false, t.strip_prefix('+').unwrap_or(t)),
+  };
+  let (mant, exp) = match rest.find(|c| c == 'e' || c == 'E') {
+    Some(i) => (&rest[..i], rest[i + 1..].parse::<i64>().ok()?),
+    None => (rest, 0),
+  };
+  let (int_part, frac_part) = match mant.find('.') {
+    Some(i) => (&mant[..i], &mant[i + 1..]),
+    None => (mant, ""),
+  };
+  if int_part.is_empty() && frac_part.is_empty() {
+    return None;
+  }
+  if !int_part.chars().all(|c| c.is_ascii_digit()) || !frac_part.chars().all(|c| c.is_ascii_digit()) {
+    return None;
+  }
+  Some((neg, format!("{}{}", int_part, frac_part), exp - frac_part.len() as i64))
+}
+
+/// `text` rounded half-even to `scale` fraction digits (negative: to tens, hundreds, ...), as a plain
+/// decimal text. The reference for `decimal(n, scale)`.
+pub fn round_half_even(text: &str, scale: i64) -> Option<String> {
+  let (neg, digits, exp) = parse_decimal(text)?;
+  let target = -scale;
+  let (kept, kept_exp) = if exp >= target {
+    (digits, exp)
+  } else {
+    let k = (target - exp) as usize;
+    let padded = if digits.len() < k { format!("{}{}", "0".repeat(k - digits.len()), digits) } else { digits };
+    let (keep, drop) = padded.split_at(padded.len() - k);
+    let first = drop.as_bytes()[0];
+    let rest_zero = drop[1..].bytes().all(|b| b == b'0');
+    let last_odd = keep.bytes().last().map(|b| (b - b'0') % 2 == 1).unwrap_or(false);
+    let up = first > b'5' || (first == b'5' && (!rest_zero || last_odd));
+    let mut ds: Vec<u8> = if keep.is_empty() { vec![b'0'] } else { keep.bytes().collect() };
+    if up {
+      let mut i = ds.len();
+      loop {
+        if i == 0 {
+          ds.insert(0, b'1');
+          break;
+        }
+        i -= 1;
+        if ds[i] == b'9' {
+          ds[i] = b'0';
+        } else {
+          ds[i] += 1;
+          break;
+        }
+      }
+    }
+    (String::from_utf8(ds).ok()?, target)
+  };
+  let plain = if kept_exp >= 0 {
+    format!("{}{}", kept, "0".repeat(kept_exp as usize))
+  } else {
+    let f = (-kept_exp) as usize;
+    let padded = if kept.len() <= f { format!("{}{}", "0".repeat(f + 1 - kept.len()), kept) } else { kept };
+    let (a, b) = padded.split_at(padded.len() - f);
+    format!("{}.{}", a, b)
+  };
+  Some(if neg { format!("-{}", plain) } else { plain })
+}
+
+// ------------------------------------------------------------------------------------------------
+// temporal values in TCK (XML Schema) form: generator and value-preserving canonical form
+// ------------------------------------------------------------------------------------------------
+
+fn days_in_month(y: u64, m: u64) -> u64 {
+  match m {
+    1 | 3 | 5 | 7 | 8 | 10 | 12 => 31,
+    4 | 6 | 9 | 11 => 30,
+    _ => {
+      if (y % 4 == 0 && y % 100 != 0) || y % 400 == 0 {
+        29
+      } else {
+        28
+      }
+    }
+  }
+}
+
+fn gen_date_text(rng: &mut Rng) -> String {
+  let y = match rng.index(4) {
+    0 => 1970 + rng.below(80),
+    1 => 1000 + rng.below(9000),
+    2 => *rng.pick(&[1000u64, 1582, 1600, 1900, 2000, 2020, 2024, 2100, 9999]),
+    _ => 2000 + rng.below(40),
+  };
+  let m = 1 + rng.below(12);
+  let dim = days_in_month(y, m);
+  let d = if rng.chance(1, 4) { dim } else { 1 + rng.below(dim) };
+  format!("{:04}-{:02}-{:02}", y, m, d)
+}
+
+/// `with_zone`: None = generator's choice, Some(false) = never a zone.
+fn gen_time_text(rng: &mut Rng) -> String {
+  let zone = match rng.index(8) {
+    0 | 1 => String::new(),
+    2 => "Z".to_string(),
+    3 => rng.pick(&["+00:00", "-00:00", "-00:30", "+00:30", "-00:01", "-00:45", "+14:00", "-14:00", "-12:00", "+05:45", "-03:30", "-09:30"]).to_string(),
+    _ => {
+      let h = rng.below(15);
+      let m = if h == 14 { 0 } else { *rng.pick(&[0u64, 0, 30, 45, 15, 1, 59]) };
+      format!("{}{:02}:{:02}", if rng.chance(1, 2) { "+" } else { "-" }, h, m)
+    }
+  };
+  // a time without a zone is local: keep it out of the hours in which the simulator's zones have
+  // their daylight-saving gaps (its validity would depend on the current date)
+  let h = if zone.is_empty() { 4 + rng.below(20) } else { rng.below(24) };
+  let (mi, se) = if rng.chance(1, 6) { (*rng.pick(&[0u64, 59]), *rng.pick(&[0u64, 59])) } else { (rng.below(60), rng.below(60)) };
+  let frac = match rng.index(8) {
+    0 => ".5".to_string(),
+    1 => ".250".to_string(),
+    2 => format!(".{:03}", rng.below(1000)),
+    3 => format!(".{:09}", 1 + rng.below(999_999_999)),
+    4 => ".000001".to_string(),
+    _ => String::new(),
+  };
+  format!("{:02}:{:02}:{:02}{}{}", h, mi, se, frac, zone)
+}
+
+fn gen_dt_duration_text(rng: &mut Rng) -> String {
+  let mut s = String::new();
+  if rng.chance(1, 4) {
+    s.push('-');
+  }
+  s.push('P');
+  let mut any = false;
+  if rng.chance(1, 2) {
+    s.push_str(&format!("{}D", *rng.pick(&[0u64, 1, 2, 30, 365, 400, 99999])));
+    any = true;
+  }
+  let mut t = String::new();
+  if rng.chance(1, 2) {
+    t.push_str(&format!("{}H", rng.below(100)));
+  }
+  if rng.chance(1, 2) {
+    t.push_str(&format!("{}M", rng.below(100)));
+  }
+  if rng.chance(1, 2) || (!any && t.is_empty()) {
+    let frac = match rng.index(5) {
+      0 => ".5".to_string(),
+      1 => format!(".{:03}", rng.below(1000)),
+      2 => format!(".{:09}", rng.below(1_000_000_000)),
+      _ => String::new(),
+    };
+    t.push_str(&format!("{}{}S", rng.below(100), frac));
+  }
+  if !t.is_empty() {
+    s.push('T');
+    s.push_str(&t);
+  }
+  s
+}
+
+fn gen_ym_duration_text(rng: &mut Rng) -> String {
+  let sign = if rng.chance(1, 4) { "-" } else { "" };
+  match rng.index(3) {
+    0 => format!("{}P{}Y", sign, rng.below(300)),
+    1 => format!("{}P{}M", sign, rng.below(40)),
+    _ => format!("{}P{}Y{}M", sign, rng.below(300), rng.below(40)),
+  }
+}
+
+/// (echo decision suffix, text): a date, time, date and time or duration in XML Schema form.
+pub fn gen_temporal(rng: &mut Rng) -> (&'static str, String) {
+  match rng.index(5) {
+    0 => ("d", gen_date_text(rng)),
+    1 => ("t", gen_time_text(rng)),
+    2 => ("dt", format!("{}T{}", gen_date_text(rng), gen_time_text(rng))),
+    3 => ("dd", gen_dt_duration_text(rng)),
+    _ => ("ym", gen_ym_duration_text(rng)),
+  }
+}
+
+fn canon_time(text: &str) -> Option<String> {
+  let b = text.as_bytes();
+  if b.len() < 8 || b[2] != b':' || b[5] != b':' || !text.is_char_boundary(8) {
+    return None;
+  }
+  let (hms, mut rest) = text.split_at(8);
+  if !hms.bytes().enumerate().all(|(i, c)| if i == 2 || i == 5 { c == b':' } else { c.is_ascii_digit() }) {
+    return None;
+  }
+  let mut frac = String::new();
+  if let Some(r) = rest.strip_prefix('.') {
+    let n = r.bytes().take_while(|c| c.is_ascii_digit()).count();
+    if n == 0 {
+      return None;
+    }
+    frac = r[..n].trim_end_matches('0').to_string();
+    rest = &r[n..];
+  }
+  let zone = match rest {
+    "" => String::new(),
+    "Z" | "z" => "Z".to_string(),
+    z => {
+      let zb = z.as_bytes();
+      if zb.len() != 6 || (zb[0] != b'+' && zb[0] != b'-') || zb[3] != b':' || ![1, 2, 4, 5].iter().all(|i| zb[*i].is_ascii_digit()) {
+        return None;
+      }
+      if &z[1..] == "00:00" {
+        "Z".to_string()
+      } else {
+        z.to_string()
+      }
+    }
+  };
+  Some(format!("{}{}{}{}", hms, if frac.is_empty() { "" } else { "." }, frac, zone))
+}
+
+/// Nanoseconds of a days-and-time duration text, months of a years-and-months duration text.
+fn canon_duration(text: &str) -> Option<String> {
+  let (neg, rest) = match text.strip_prefix('-') {
+    Some(r) => (true, r),
+    None => (false, text),
+  };
+  let rest = rest.strip_prefix('P')?;
+  if rest.is_empty() {
+    return None;
+  }
+  let (date_part, time_part) = match rest.find('T') {
+    Some(i) => (&rest[..i], Some(&rest[i + 1..])),
+    None => (rest, None),
+  };
+  let mut months: i128 = 0;
+  let mut nanos: i128 = 0;
+  let mut is_ym = false;
+  let mut is_dt = time_part.is_some();
+  let mut num = String::new();
+  for c in date_part.chars() {
+    match c {
+      '0'..='9' => num.push(c),
+      'Y' | 'M' | 'D' => {
+        let n: i128 = num.parse().ok()?;
+        num.clear();
+        match c {
+          'Y' => {
+            months += 12 * n;
+            is_ym = true
+          }
+          'M' => {
+            months += n;
+            is_ym = true
+          }
+          _ => {
+            nanos += n * 86_400_000_000_000;
+            is_dt = true
+          }
+        }
+      }
+      _ => return None,
+    }
+  }
+  if !num.is_empty() {
+    return None;
+  }
+  if let Some(tp) = time_part {
+    if tp.is_empty() {
+      return None;
+    }
+    let mut num = String::new();
+    for c in tp.chars() {
+      match c {
+        '0'..='9' | '.' => num.push(c),
+        'H' => {
+          nanos += num.parse::<i128>().ok()? * 3_600_000_000_000;
+          num.clear();
+        }
+        'M' => {
+          nanos += num.parse::<i128>().ok()? * 60_000_000_000;
+          num.clear();
+        }
+        'S' => {
+          let (i, f) = match num.find('.') {
+            Some(p) => (&num[..p], &num[p + 1..]),
+            None => (num.as_str(), ""),
+          };
+          if f.len() > 9 {
+            return None;
+          }
+          nanos += i.parse::<i128>().ok()? * 1_000_000_000;
+          if !f.is_empty() {
+            nanos += format!("{:0<9}", f).parse::<i128>().ok()?;
+          }
+          num.clear();
+        }
+        _ => return None,
+      }
+    }
+    if !num.is_empty() {
+      return None;
+    }
+  }
+  if is_ym && is_dt {
+    return None;
+  }
+  if is_ym {
+    Some(format!("months:{}", if neg { -months } else { months }))
+  } else {
+    Some(format!("nanos:{}", if neg { -nanos } else { nanos }))
+  }
+}
+
+/// Value-preserving canonical form of a temporal text in XML Schema form: trailing zeros of a
+/// fraction, `+00:00` against `Z` and the split of a duration into units do not change the value.
+pub fn canon_temporal(ty: &str, text: &str) -> Option<String> {
+  match ty {
+    "xsd:date" => {
+      let b = text.as_bytes();
+      if b.len() == 10 && b[4] == b'-' && b[7] == b'-' && [0, 1, 2, 3, 5, 6, 8, 9].iter().all(|i| b[*i].is_ascii_digit()) {
+        Some(text.to_string())
+      } else {
+        None
+      }
+    }
+    "xsd:time" => canon_time(text),
+    "xsd:dateTime" => {
+      let i = text.find('T')?;
+      let d = canon_temporal("xsd:date", &text[..i])?;
+      Some(format!("{}T{}", d, canon_time(&text[i + 1..])?))
+    }
+    "xsd:duration" => canon_duration(text),
+    _ => None,
+  }
+}
+
 const KEY_ATOMS: [&str; 12] = ["a", "b", "key", "Full Name", "x1", "total amount", "k", "Z", "n_1", "some key", "v", "w"];
 
 pub fn gen_val(rng: &mut Rng, depth: usize) -> Val {
@@ -594,6 +947,8 @@ impl Val {
       },
       Val::Typed(ty, text) => match simple {
         Some(s) if s.get("type") == Some(&J::Str(ty.clone())) && s.get("text") == Some(&J::Str(text.clone())) => Ok(()),
+        // the same value in another spelling (`+00:00` / `Z`, `.50` / `.5`, `PT36H` / `P1DT12H`)
+        Some(s) if s.get("type") == Some(&J::Str(ty.clone())) && canon_temporal(ty, text).is_some() && matches!(s.get("text"), Some(J::Str(t)) if canon_temporal(ty, t) == canon_temporal(ty, text)) => Ok(()),
         _ => Err(format!("{} {:?} came back as {}", ty, text, describe(j))),
       },
       Val::List(items) => match list.and_then(|l| l.get("items")) {
